@@ -160,6 +160,14 @@ def havoc(fv, st, names, fields):
         st.heap_version += 1
 
 
+def ghost_assigned(spec):
+    out = set()
+    for h in spec.body_hints + spec.end_hints:
+        if isinstance(h, ast.Call) and isinstance(h.func, ast.Name) and h.func.id == 'assign':
+            out.add(h.args[0].value)
+    return out
+
+
 def exec_while(fv, s, st):
     key = enter_loop(fv)
     try:
@@ -169,7 +177,7 @@ def exec_while(fv, s, st):
         run_hints(fv, spec.entry_hints, st)
         check_invs(fv, spec, st, 'entry', s)
         names, fields = modified(fv, s.body)
-        names |= set(spec.modifies)
+        names |= set(spec.modifies) | ghost_assigned(spec)
         havoc(fv, st, names, fields)
         assume_invs(fv, spec, st)
         fv.oblige(st, 'loop[%s]/cover' % key, z3.BoolVal(False), s, kind='cover')
@@ -186,6 +194,7 @@ def exec_while(fv, s, st):
         fv.loop_stack.pop()
         fv.merge_into(body, [body] + ctl.continues)
         if not body.dead:
+            run_hints(fv, spec.end_hints, body)
             check_invs(fv, spec, body, 'preserve', s)
             if dec0 is not None:
                 dec1 = coerce(fv.ev(spec.decreases, body, True), INT).term
@@ -206,7 +215,7 @@ def exec_for(fv, s, st):
         sfx = key.replace('.', '_')
         iname = '_i' + sfx
         names, fields = modified(fv, s.body)
-        names |= set(spec.modifies)
+        names |= set(spec.modifies) | ghost_assigned(spec)
         src = iter_source(fv, s.target, s.iter, st, False)
         # the iterated value is fixed before the loop; record it as ghost _s<key> when it is a plain sequence
         if src.plain_seq is not None:
@@ -238,6 +247,7 @@ def exec_for(fv, s, st):
         fv.loop_stack.pop()
         fv.merge_into(body, [body] + ctl.continues)
         if not body.dead:
+            run_hints(fv, spec.end_hints, body)
             body.env[iname] = SV(i + 1, INT)
             check_invs(fv, spec, body, 'preserve', s)
         st.pc = simp_and(st.pc, simp_not(c))
